@@ -300,9 +300,13 @@ impl World {
     /// All successor worlds of thread `t` taking one transition.
     pub fn steps(&self, p: &Program, t: usize, mode: Mode) -> Vec<World> {
         // the other threads start only after thread 0's sequential prefix
-        if t != 0 && self.th[0].pc < p.pre.min(p.threads[0].ops.len()) {
+        let in_prefix = self.th[0].pc < p.pre.min(p.threads[0].ops.len());
+        if t != 0 && in_prefix {
             return vec![];
         }
+        // while the prefix runs thread 0 is alone: sequential semantics (no
+        // peer can be in the middle of anything)
+        let mode = if in_prefix { Mode { concurrent: false } } else { mode };
         let th = &self.th[t];
         let ops = &p.threads[t].ops;
         match th.phase {
@@ -634,6 +638,10 @@ impl World {
             Op::StreamIsTerm(_) => {
                 let b = w.ch.s == 0 && w.ch.queue.is_empty();
                 w.push_res(t, Res::Bool(b), None);
+                one(w)
+            }
+            Op::SendNone(_) => {
+                w.push_res(t, Res::Panicked, None);
                 one(w)
             }
             Op::CloneFrom(side) => {
